@@ -54,6 +54,8 @@ structure Manifest where
   frags : List Frag
   nextRowId : Nat
   maxFragId : Option Nat
+  /-- version published by the latest Create / Overwrite (what a rebased Append conflicts with) -/
+  epoch : Nat
   deriving DecidableEq, Repr
 
 /-- every published manifest, newest first; `[]` = no table -/
@@ -69,6 +71,9 @@ inductive Pred where
 inductive Op where
   | create (f k : Nat) (rows : List Row)
   | append (f : Nat) (rows : List Row)
+  /-- an append whose transaction was built on version `rv` (a stale handle / a concurrent writer) and is rebased onto the
+      latest version by the commit loop -/
+  | appendVia (rv f : Nat) (rows : List Row)
   | overwrite (f : Nat) (rows : List Row)
   | delete (p : Pred)
   | update (p : Pred) (y : Int)
@@ -331,7 +336,7 @@ def pushM (h : Hist) (m : Manifest) : Hist := m :: h
 /-- a new manifest from the previous one and the operation's final fragment list (sorted by id, mark raised) -/
 def nextManifest (m : Manifest) (frags : List Frag) (next : Nat) : Manifest :=
   { version := m.version + 1, k := m.k, frags := sortFrags frags, nextRowId := next
-    maxFragId := updateMax m.maxFragId (sortFrags frags) }
+    maxFragId := updateMax m.maxFragId (sortFrags frags), epoch := m.epoch }
 
 /-- the manifest published by `reserve_fragment_ids` (Operation::ReserveFragments): nothing but the version and
     `max_fragment_id = Some(max_fragment_id.unwrap_or(0) + n)` change -/
@@ -367,7 +372,7 @@ def step (h : Hist) (op : Op) : Hist × Res :=
       ([{ version := 1, k := k
           frags := sortFrags (writtenFrags 1 0 0 f rows)
           nextRowId := rows.length
-          maxFragId := updateMax none (sortFrags (writtenFrags 1 0 0 f rows)) }], .ok)
+          maxFragId := updateMax none (sortFrags (writtenFrags 1 0 0 f rows)), epoch := 1 }], .ok)
   | [], _ => ([], .err "no_table")
   | m :: h, .create _ _ _ => (m :: h, .err "already_exists")
   | m :: h, .append f rows =>
@@ -376,11 +381,22 @@ def step (h : Hist) (op : Op) : Hist × Res :=
     else
       (nextManifest m (m.frags ++ writtenFrags (m.version + 1) (startId m.maxFragId) m.nextRowId f rows)
         (m.nextRowId + rows.length) :: m :: h, .ok)
+  | m :: h, .appendVia rv f rows =>
+    -- conflict_resolver.rs check_append_txn: an Append is rebased over everything but Overwrite (/ Restore); build_manifest
+    -- then runs against the LATEST manifest: fragment ids, row ids and the stamped version are those of a fresh append
+    if rv = 0 || decide (m.version < rv) then (m :: h, .err "no_handle")
+    else if !rowsWidthOk m.k rows then (m :: h, .err "width")
+    else if f = 0 then (m :: h, .err "invalid_input")
+    else if rv < m.epoch then (m :: h, .err "conflict_incompatible")
+    else
+      (nextManifest m (m.frags ++ writtenFrags (m.version + 1) (startId m.maxFragId) m.nextRowId f rows)
+        (m.nextRowId + rows.length) :: m :: h, .ok)
   | m :: h, .overwrite f rows =>
     if !rowsWidthOk m.k rows then (m :: h, .err "width")
     else if f = 0 then (m :: h, .err "invalid_input")
     else
-      (nextManifest m (writtenFrags (m.version + 1) 0 m.nextRowId f rows) (m.nextRowId + rows.length) :: m :: h, .ok)
+      ({ nextManifest m (writtenFrags (m.version + 1) 0 m.nextRowId f rows) (m.nextRowId + rows.length) with
+          epoch := m.version + 1 } :: m :: h, .ok)
   | m :: h, .delete p => (nextManifest m (deleteFrags p m.frags) m.nextRowId :: m :: h, .ok)
   | m :: h, .update p y =>
     (nextManifest m
